@@ -15,6 +15,8 @@
 #include <thread>
 #include <atomic>
 #include <chrono>
+#include <future>
+#include <mutex>
 
 typedef via::http_server<via::comms::tcp_adaptor, std::string, true> http_server_type;
 typedef http_server_type::http_connection_type http_connection;
@@ -81,7 +83,7 @@ static std::string handle_reset(std::vector<std::string> const& a)
       tcp::socket sock(cio);
       sock.connect(tcp::endpoint(boost::asio::ip::make_address("127.0.0.1"), port), ec);
       if (ec) continue;
-      struct timeval tv; tv.tv_sec = 2; tv.tv_usec = 0;
+      struct timeval tv; tv.tv_sec = 10; tv.tv_usec = 0;
       setsockopt(sock.native_handle(), SOL_SOCKET, SO_RCVTIMEO, &tv, sizeof tv);
       std::string req = "GET /witness HTTP/1.1\r\nHost: h\r\nConnection: close\r\n\r\n";
       boost::asio::write(sock, boost::asio::buffer(req), ec);
@@ -91,16 +93,94 @@ static std::string handle_reset(std::vector<std::string> const& a)
       sock.close(ec);
     }
   }
-  std::this_thread::sleep_for(std::chrono::milliseconds(150));
-  size_t held = server.http_connections_.size();
+  // read on the event loop's own thread
+  auto held_now = [&io, &server]() -> size_t
+  {
+    auto p = std::make_shared<std::promise<size_t>>();
+    auto f = p->get_future();
+    boost::asio::post(io, [p, &server]() { p->set_value(server.http_connections_.size()); });
+    return f.wait_for(std::chrono::seconds(5)) == std::future_status::ready ? f.get() : static_cast<size_t>(999999);
+  };
+  size_t held = held_now();
+  for (int w = 0; w < 100 && (disc.load() != conns.load() || held); ++w)   // up to 5 s for the last events
+  {
+    std::this_thread::sleep_for(std::chrono::milliseconds(50));
+    held = held_now();
+  }
   io.stop();
   loop.join();
   return "threw=" + threw + " conns=" + std::to_string(conns.load()) + " disc=" + std::to_string(disc.load()) +
          " witness=" + std::to_string(witness) + "/" + std::to_string(rounds) + " held=" + std::to_string(held);
 }
 
+// case: timeo <events>   events ',' separated:  Z<ms> = server.set_timeout(ms) (on the event loop's thread), A = a client connects and sends a request
+//   the request handler reads SO_RCVTIMEO / SO_SNDTIMEO back from the accepted socket.  The server is listening before the first event.
+// output: timeo=<rcv sec>.<usec>/<snd sec>.<usec>,...   one per A
+static std::string handle_timeo(std::vector<std::string> const& a)
+{
+  std::mutex mx; std::string got;
+  boost::asio::io_context io;
+  http_server_type server(io);
+  server.request_received_event([&mx, &got](http_connection::weak_pointer w, http_request const&, std::string const&)
+  {
+    if (auto c = w.lock())
+    {
+      if (auto tcp = c->connection_.lock())
+      {
+        int fd = static_cast<int>(tcp->socket().native_handle());
+        struct timeval rv{0, 0}, sv{0, 0}; socklen_t l1 = sizeof rv, l2 = sizeof sv;
+        getsockopt(fd, SOL_SOCKET, SO_RCVTIMEO, &rv, &l1);
+        getsockopt(fd, SOL_SOCKET, SO_SNDTIMEO, &sv, &l2);
+        std::lock_guard<std::mutex> g(mx);
+        if (!got.empty()) got += ",";
+        got += std::to_string(rv.tv_sec) + "." + std::to_string(rv.tv_usec) + "/" + std::to_string(sv.tv_sec) + "." + std::to_string(sv.tv_usec);
+      }
+      via::http::tx_response response(via::http::response_status::code::OK);
+      c->send(std::move(response), std::string("ok"));
+    }
+  });
+  unsigned short port = 0;
+  for (unsigned short p = static_cast<unsigned short>(23000 + (static_cast<unsigned>(getpid()) * 11u) % 30000); ; ++p)
+  {
+    boost::system::error_code ec(server.accept_connections(p));
+    if (!ec) { port = p; break; }
+    if (p > 60000) return "HARNESS-ERROR no-port";
+  }
+  std::thread loop([&io]() { io.run(); });
+  using boost::asio::ip::tcp;
+  for (auto const& e : hu::split(a[0], ','))
+  {
+    if (e.empty()) continue;
+    if (e[0] == 'Z')
+    {
+      int ms = std::stoi(e.substr(1));
+      auto p = std::make_shared<std::promise<void>>(); auto f = p->get_future();
+      boost::asio::post(io, [p, &server, ms]() { server.set_timeout(ms); p->set_value(); });
+      f.wait_for(std::chrono::seconds(5));
+    }
+    else
+    {
+      boost::asio::io_context cio; boost::system::error_code ec;
+      tcp::socket sock(cio);
+      sock.connect(tcp::endpoint(boost::asio::ip::make_address("127.0.0.1"), port), ec);
+      if (ec) continue;
+      struct timeval tv; tv.tv_sec = 10; tv.tv_usec = 0;
+      setsockopt(sock.native_handle(), SOL_SOCKET, SO_RCVTIMEO, &tv, sizeof tv);
+      std::string req = "GET /t HTTP/1.1\r\nHost: h\r\nConnection: close\r\n\r\n";
+      boost::asio::write(sock, boost::asio::buffer(req), ec);
+      std::string in; char buf[1024];
+      for (;;) { ssize_t n = ::recv(sock.native_handle(), buf, sizeof buf, 0); if (n <= 0) break; in.append(buf, static_cast<size_t>(n)); }
+      sock.close(ec);
+    }
+  }
+  io.stop();
+  loop.join();
+  return "timeo=" + (got.empty() ? std::string("-") : got);
+}
+
 static std::string handle(std::string const& op, std::vector<std::string> const& a)
 {
+  if (op == "timeo") return handle_timeo(a);
   if (op == "reset") return handle_reset(a);
   if (op != "real") return "HARNESS-ERROR unknown-op " + op;
   size_t body_bytes = static_cast<size_t>(std::stoull(a[0]));
@@ -139,7 +219,7 @@ static std::string handle(std::string const& op, std::vector<std::string> const&
     setsockopt(sock.native_handle(), SOL_SOCKET, SO_RCVBUF, &rcvbuf, sizeof rcvbuf);
     sock.connect(tcp::endpoint(boost::asio::ip::make_address("127.0.0.1"), port), ec);
     if (ec) { io.stop(); loop.join(); return "HARNESS-ERROR connect"; }
-    struct timeval tv; tv.tv_sec = 8; tv.tv_usec = 0;
+    struct timeval tv; tv.tv_sec = 20; tv.tv_usec = 0;
     setsockopt(sock.native_handle(), SOL_SOCKET, SO_RCVTIMEO, &tv, sizeof tv);
     std::string pending;
     for (int i = 0; i < nreq && !eof && !err; ++i)
@@ -177,8 +257,9 @@ static std::string handle(std::string const& op, std::vector<std::string> const&
     }
     if (!eof && !err)
     {
-      // does the server close? (after HTTP/1.0 or Connection: close it must; otherwise it must not)
-      struct timeval tv2; tv2.tv_sec = 0; tv2.tv_usec = 400000;
+      // does the server close? (after HTTP/1.0 or Connection: close it must: wait for it; otherwise it must not)
+      bool expect_close = close_last || !v11;
+      struct timeval tv2; tv2.tv_sec = expect_close ? 6 : 0; tv2.tv_usec = expect_close ? 0 : 300000;
       setsockopt(sock.native_handle(), SOL_SOCKET, SO_RCVTIMEO, &tv2, sizeof tv2);
       char buf[16];
       ssize_t n = ::recv(sock.native_handle(), buf, sizeof buf, 0);
